@@ -424,7 +424,14 @@ pub fn gen_spec(rng: &mut Rng) -> (KyteaSpec, Vec<Vec<char>>) {
         if words.iter().any(|x| x.0 == w) {
             continue;
         }
-        let mask = if n_dicts == 0 { 0 } else { (rng.below(256) as u8) & (((1u16 << n_dicts) - 1) as u8) };
+        let mask = if n_dicts == 0 {
+            0
+        } else if rng.chance(1, 3) {
+            // membership in exactly one dictionary (incl. the last one)
+            1u8 << rng.below(usize::from(n_dicts))
+        } else {
+            (rng.below(256) as u8) & (((1u16 << n_dicts) - 1) as u8)
+        };
         words.push((w, mask));
     }
     // rare: a very long dictionary word (length bucket arithmetic beyond 255)
@@ -432,7 +439,14 @@ pub fn gen_spec(rng: &mut Rng) -> (KyteaSpec, Vec<Vec<char>>) {
         let len = *rng.pick(&[255usize, 256, 257, 258, 259, 260, 513]);
         let w: Vec<char> = (0..len).map(|_| *rng.pick(&alpha)).collect();
         if !words.iter().any(|x| x.0 == w) {
-            let mask = if n_dicts == 0 { 0 } else { (rng.below(256) as u8) & (((1u16 << n_dicts) - 1) as u8) };
+            let mask = if n_dicts == 0 {
+            0
+        } else if rng.chance(1, 3) {
+            // membership in exactly one dictionary (incl. the last one)
+            1u8 << rng.below(usize::from(n_dicts))
+        } else {
+            (rng.below(256) as u8) & (((1u16 << n_dicts) - 1) as u8)
+        };
             words.push((w, mask));
         }
     }
